@@ -17,6 +17,7 @@ import z3
 import numpy as _rnp
 from pyvc import core, symnp, solve, loader as L, harness as H, report as R, parallel as P
 from pyvc.core import SFloat, zi
+from props import kernel_inv as KI
 from props import dist_common as DCm, kernels as KN
 from props.dist_common import moment_tensor, real_of
 
@@ -131,7 +132,12 @@ def main():
     for td, pr in (('float32', 'float64'), ('uint8', 'float32')):
         units += [('disp', 'SNR', 3, td, pr), ('disp', 'SNR', 9, td, pr), ('disp', 'SNR', 10, td, pr), ('disp', 'TB', 3, td, pr)]
     units += [('tt', 2, 2, 'float32', 'float64'), ('tt', 2, 1, 'float64', 'float32'), ('mia', 1, 2, 1, 2, 2, 'float32')]
+    for td, pr in grid: units += [('inv', 'pk1', td, pr), ('inv', 'tk1', td, pr), ('inv', 'tt', td, pr)]
     def work(sub, kind, *args):
+        if kind == 'inv':
+            which, td, pr = args
+            fn_, key_, exp_, dist_ = {'pk1': (KI.partitioned_core1, KN.PM + '::PartitionedDistinguisherMixin._accumulate_core_1', (1, 1, 1), 'SNR'), 'tk1': (KI.template_core1, KN.TM + '::_TemplateBuildDistinguisherMixin._accumulate_core_1', (1, 1), 'TemplateBuild'), 'tt': (KI.ttest_core, KN.TT + '::TTestThreadAccumulator._update_core', (1,), 'ttest')}[which]
+            KI.report(sub, fn_(u, td, pr), '%s loop invariants (class by value of the index, -1 contributes nothing), all extents symbolic, %s->%s' % ({'pk1': 'partitioned kernel 1', 'tk1': 'template build kernel 1', 'tt': 't-test kernel'}[which], td, pr), key_, timeout, exp_, native, dict(kind='kernel', dist=dist_, which=1, tdtype=td, precision=pr)); return
         if kind == 'part':
             which, n, S, W, K, td, pr = args
             KN.report_kernel(sub, KN.partitioned_kernel(u, which, n, S, W, K, td, pr), 'partitioned kernel %d, %dx%dx%d, %d classes, %s->%s' % (which, n, S, W, K, td, pr), KN.PM + '::PartitionedDistinguisherMixin._accumulate_core_%d' % which, timeout, native, dict(kind='kernel', dist='SNR', which=which, tdtype=td, precision=pr))
